@@ -36,9 +36,23 @@ package http1
 // wantClose: the request or the response asked for the connection to be closed (ConnectionClose() answered true).
 //@ ghost var wantClose bool
 
+// mayCont: MayContinue() answered true for the request of this iteration (its body was left unread by the header
+// step); contDone: the continue step ran - the body was read after "100 Continue", or the continue handler refused.
+// The handler is entered only after that (unless the refusal flag of the loop is down): otherwise the unread body
+// would be parsed as the next request.
+//@ ghost var mayCont bool
+//@ ghost var contDone bool
+
 //@ func Server.Serve(s, c, conn) err
 //@   props C19, C18, C01, C03, C04
-//@   requires phase == 0 && !rejecting && !closeSet && !notRunningSeen && !runningChecked && !wantClose && !headChecked
+//@   requires phase == 0 && !rejecting && !closeSet && !notRunningSeen && !runningChecked && !wantClose && !headChecked && !mayCont && !contDone
+//@   ghostset after Request.MayContinue: mayCont = result
+//@   ghostset after ContinueReadBody: contDone = true
+//@   ghostset after ContinueReadBodyStream: contDone = true
+//@   ghostset after ContinueHandler: contDone = contDone || !result
+//@   assert @C01 before ServeHTTP: mayCont && continueReadingRequest ==> contDone
+//@   ghostset after ResetWithoutConn: mayCont = false
+//@   ghostset after ResetWithoutConn: contDone = false
 //@   ghostset after IsGet!: headChecked = (phase == 2)
 //@   assert @C04 before writeResponse: rejecting || headChecked
 //@   ghostset after ResetWithoutConn: headChecked = false
@@ -80,7 +94,7 @@ package http1
 //@   top-ensures traceOpen == 0
 //@   loop 0:
 //@     invariant traceOpen == 0 && evDepth == 0 && !traceStarted
-//@     invariant phase == 0 && !rejecting && !closeSet && !wantClose && !headChecked
+//@     invariant phase == 0 && !rejecting && !closeSet && !wantClose && !headChecked && !mayCont && !contDone
 //@     invariant @C18 !notRunningSeen && !runningChecked
 
 //@ func Server.Serve$1()
